@@ -99,7 +99,8 @@ def cases(tier, seed):
                            rng.choice(['setUp', 'body', 'tearDown']))
                 ths.append({'api': rng.choice(['threading', '_thread',
                                                '_thread_touch', 'timer',
-                                               '_thread_late']),
+                                               '_thread_late',
+                                               'threading_falsy']),
                             'daemon': rng.random() < 0.6,
                             'name': rng.choice(['default', 'named',
                                                 'ignored', 'midign',
@@ -108,7 +109,7 @@ def cases(tier, seed):
             if len(ths) >= 2 and rng.random() < 0.35:
                 # a worker pool: all of this test's threads carry one name
                 for th in ths:
-                    if th['api'] in ('threading', 'timer'):
+                    if th['api'] in ('threading', 'timer', 'threading_falsy'):
                         th['name'] = 'shared'
                         if rng.random() < 0.7:
                             th['rel'] = rng.choice([('never', None)] + [
@@ -119,7 +120,8 @@ def cases(tier, seed):
                 rel = th['rel']
                 last = L - 1 if rel[0] == 'never' else (
                     rel[0] if rel[0] != 'same' else i)
-                if th['api'] in ('threading', 'timer') and last > i and \
+                if th['api'] in ('threading', 'timer', 'threading_falsy') and \
+                        last > i and \
                         rng.random() < 0.35:
                     th['rename_in'] = rng.randint(i + 1, last)
                     # (before the release when both fall into one test)
@@ -328,6 +330,8 @@ def run_case(case):
         C('late_touch_in_this_test', sum(
             1 for k in alive if keys[k].get('touched_in') == i))
         C('timer_leaks', sum(1 for k in want if keys[k]['api'] == 'timer'))
+        C('falsy_thread_object_leaks', sum(
+            1 for k in want if keys[k]['api'] == 'threading_falsy'))
         C('nondaemon_leaks', sum(1 for k in want
                                  if keys[k].get('daemon') is False))
         C('touch_threads_gone', sum(
